@@ -235,6 +235,11 @@ func RunC09(run *vk.Run) {
 		run.Infra(err)
 		return
 	}
+	// the bounded runs below cover N = 2..4 calls; the proof removes the bound (any N, any families)
+	if _, err := vk.RunTLAPS(run, "SnpValidatorProof", 10*time.Minute); err != nil {
+		run.Infra(err)
+		return
+	}
 	ns := []int{2, 3}
 	if !run.IsQuick() {
 		ns = []int{2, 3, 4}
@@ -486,7 +491,7 @@ func RunC09(run *vk.Run) {
 		run.Extra["race_stress"] = "skipped (no -race binary)"
 	}
 	run.Exhaustive = true
-	run.Rule = "every interleaving of the two segments of N concurrent validator calls (N=2,3; thorough also 4) x every assignment of endorsed/unendorsed attestations emitted by TLC is forced on the real closure with the verifhook gate, in six sharing modes (validators of two firmware families built from one options value over the download path, one validator, validators from one Options value, SevValidate with a given endorsement, SevValidate extracting it, SevValidate with a shared base policy over two endorsed builds); each call's result is compared with its isolated result; plus a free-running 16-goroutine stress under the race detector"
+	run.Rule = "SnpValidatorProof.tla: TLAPS proof of C09_Isolated for the per-call design, for any number of calls and any families (inductive invariant: a captured measurement is the call's own); every interleaving of the two segments of N concurrent validator calls (N=2,3; thorough also 4) x every assignment of endorsed/unendorsed attestations emitted by TLC is forced on the real closure with the verifhook gate, in six sharing modes (validators of two firmware families built from one options value over the download path, one validator, validators from one Options value, SevValidate with a given endorsement, SevValidate extracting it, SevValidate with a shared base policy over two endorsed builds); each call's result is compared with its isolated result; plus a free-running 16-goroutine stress under the race detector"
 }
 
 func tailStr(s string, n int) string {
